@@ -1,5 +1,5 @@
 # configuration of ./check for property C16 (see props_config.py)
-CONFIG = {'gen': [],
+CONFIG = {'gen': ['ConstsC16'],
  'rule': 'cases = binary SIDs (every count 0..15 x boundary authorities exhaustively, then random counts/values, truncations, oversized '
          'counts, wrong revisions, trailing bytes, random bytes) and distinguished names (random RDN sequences in AD text form with '
          "escaped specials incl. '\\,DC=' inside values, plus raw text); distinct = distinct input line; non-trivial = implementation "
@@ -8,11 +8,19 @@ CONFIG = {'gen': [],
                  "Lean's Nat.repr is taken as the definition of decimal notation"],
  'trusted': [],
  'technique': 'Lean 4 proof (induction over the sub-authority list / RDN list) about a hand model; model tied to the Go code by '
-              'differential correspondence; spec oracle on the same inputs',
+              'differential correspondence; spec oracle on the same inputs; constants regenerated from the source on every run by a go/ast '
+              'fact extractor (Gen/ConstsC16: revision value and index, count index, the six authority byte positions and shifts, the 8+4k '
+              'sub-authority bound and offsets with their byte order, format strings, DN escape/separator/DC= prefix/dot) and proved equal '
+              'to the ones the model uses by rfl/decide (9 theorems consts_match_model_*)',
  'level_text': 'Theorems sid_string_spec (all authorities < 2^48, all sub-authority lists up to 255, all trailing bytes), sid_total (no '
                'input panics), sid_short_or_wrong_revision_is_empty and dn_domain_spec (all RDN sequences in AD text form) are proved in '
                'Lean for all inputs about a hand-written model of ParseSIDFromBytes and GetDomainFromDistinguishedName; the model is tied '
                'to the code by running both on the same generated inputs on every run, and the implementation is compared with an '
-               'independent MS-DTYP reading of the same bytes.',
- 'level_note': 'Trusted: Lean kernel; axioms propext, Classical.choice, Quot.sound; the hand model is tied to the Go code only by '
-               'differential testing (bounded); fmt/strings stdlib semantics as modelled; Nat.repr as decimal notation.'}
+               'independent MS-DTYP reading of the same bytes. Constants tie: 9 theorems consts_match_model_* restate the model functions '
+               'with the numbers regenerated from the current source (revision value and index, count index, the six authority byte '
+               'positions and shifts, the 8+4k sub-authority bound and offsets with their byte order, format strings, DN '
+               'escape/separator/DC= prefix/dot) in place of their literals; a changed constant in the source makes the theorem named '
+               'after the function fail.',
+ 'level_note': 'Trusted: Lean kernel; axioms propext, Classical.choice, Quot.sound; the hand model is tied to the Go code by differential '
+               'testing and, for the constants covered by consts_match_model_*, by regeneration from the source (control flow: '
+               'differential testing only, bounded); fmt/strings stdlib semantics as modelled; Nat.repr as decimal notation.'}
